@@ -22,7 +22,7 @@ RULE = ("a tree (directory input, recursive) or a lone file + settings (prefix, 
         "all runs (paths written by several inputs, i.e. the shared top index.rst, are excluded and counted). "
         "Non-trivial: the history has >=2 different variation kinds, one of them moved tree / relative spelling / other "
         "inputs before; distinct by SHA-1 of the case")
-RULE_MORE = 'location-independent exclude patterns and follow_symlinks with an aliased subdirectory as part of the settings. Later: whitespace-twin prefill; location through a symlinked parent and below directories with regex metacharacters; an undocumented twin of a tree file documented first.'
+RULE_MORE = 'location-independent exclude patterns and follow_symlinks with an aliased subdirectory as part of the settings. Later: whitespace-twin prefill; location through a symlinked parent and below directories with regex metacharacters; an undocumented twin of a tree file documented first; (round 10) pattern lists with re-including negations (their order matters).'
 ASSUMPTIONS = ["other inputs use names disjoint from the input under test so that every output path has one producer",
                "hash-seed runs use the real interpreter as a subprocess; all other runs are in-process"]
 BUDGET = {"quick": {"shards": 8, "examples": 50}, "thorough": {"shards": 16, "examples": 800}}
@@ -41,7 +41,7 @@ def strategy(tier):
         "ext": st.booleans(),
         "strip": st.sampled_from(["", "^_", "^_"]),
         # location-independent exclusion patterns are settings like any other (none matches a sandbox ancestor)
-        "excl": st.sampled_from([None, None, ["pre_*"], ["?x.cmake", "d?/"], ["a.cmake", "zeta.cmake"], ["*.CMAKE", "sub/"],
+        "excl": st.sampled_from([None, None, ["*.cmake", "!a.cmake", "!zeta.cmake", "!x.cmake", "!b.cmake"], ["pre_*", "!pre_one.cmake", "?x.cmake", "!bx.cmake"], ["pre_*"], ["?x.cmake", "d?/"], ["a.cmake", "zeta.cmake"], ["*.CMAKE", "sub/"],
                                  ["a.cmake", "b.cmake", "ax.cmake", "bx.cmake", "d.cmake"]]),
         "history": st.lists(step, min_size=2, max_size=5),
         # a symbolic link to the first subdirectory, followed (input.follow_symlinks) or not
